@@ -44,6 +44,14 @@ type tmpl struct {
 	copySem bool
 	// identTPanics: m.M(m.T()) is documented to panic (doc.go: Copy).
 	identTPanics bool
+	// verify, when non-nil, checks the unaliased result against a definition
+	// that is not an element-wise closed form (e.g. the residual of a solve);
+	// it returns a non-empty message on failure.
+	verify func(c *refCtx, res func(i, j int) float64) string
+	// noOperand: the method has no matrix operand besides its own private
+	// storage (the ...To extractors of the factorization types); the
+	// destination window is judged against ref only.
+	noOperand bool
 	// noSamePointer: do not additionally pass the window of identical geometry
 	// as the very same pointer (selfop Solve: m.Solve(m, m) takes the a == b
 	// shortcut and returns the exact identity, while the unaliased twin solves
@@ -254,8 +262,8 @@ func (c *caseRun) pair(ov *view, trans, ident bool, fv int) {
 		x2 = transposeOf(x2, tm)
 	}
 	var want []float64
+	rc := &refCtx{x: x2, fv: fv, rr: rv.r, rc: rv.c, old: func(i, j int) float64 { return s.fill[rv.start+i*rv.stride+j] }}
 	if tm.ref != nil {
-		rc := &refCtx{x: x2, fv: fv, rr: rv.r, rc: rv.c, old: func(i, j int) float64 { return s.fill[rv.start+i*rv.stride+j] }}
 		want = make([]float64, rv.r*rv.c)
 		for i := 0; i < rv.r; i++ {
 			for j := 0; j < rv.c; j++ {
@@ -293,6 +301,14 @@ func (c *caseRun) pair(ov *view, trans, ident bool, fv int) {
 					return
 				}
 			}
+		}
+	}
+
+	if tm.verify != nil && u.err == nil {
+		if msg := tm.verify(rc, func(i, j int) float64 { return dataR[rv.start+i*rv.stride+j] }); msg != "" {
+			c.counts[r][outBad]++
+			c.fail("unaliased-result-wrong", ov, trans, ident, fv, r, "unaliased result violates the definition: %s", msg)
+			return
 		}
 	}
 
@@ -386,6 +402,12 @@ func (c *caseRun) run() {
 	shapes := [][2]int{{rv.r, rv.c}}
 	if tm.shapes != nil {
 		shapes = tm.shapes(rv.r, rv.c)
+	}
+	if tm.noOperand {
+		for fv := 0; fv < tm.nf && len(shapes) > 0; fv++ {
+			c.pair(rv, false, true, fv)
+		}
+		shapes = nil
 	}
 	for _, sh := range shapes {
 		for _, xs := range tm.xs {
